@@ -296,6 +296,14 @@ EAGAIN, `pass` on timeout, both with the lock still held); `release`/`fail` = `f
     consumes nothing: the source counts the same way (regenerated) -/
 theorem byte_accounting : Gen.Wire.countsOnlyAcceptedBytes = true ∧ Gen.Wire.writeLockUnconditional = true := by decide
 
+/-- **The socket is only ever replaced or dropped while no writer is inside a buffer**: `IO.close` and `IO.open`
+    take the write lock (and the read lock) around it, so a writer that re-reads `self.socket` on its next attempt
+    cannot carry the rest of a buffer over to another connection's socket.  Regenerated per-method lock table. -/
+theorem socket_replaced_only_with_both_locks :
+    Gen.Skel.acquires.lookup "IO_close" = some ["_wr_lock", "_rd_lock"] ∧
+    Gen.Skel.acquires.lookup "IO_open" = some ["_wr_lock", "_rd_lock"] ∧
+    Gen.Skel.acquires.lookup "IO_write_to_socket" = some ["_wr_lock"] := by decide
+
 theorem skel_IO_write_to_socket : Gen.Skel.IO_write_to_socket =
   ["acq:_wr_lock", "try", "while", "do", "try", "r:socket", "if", "then", "raise:socket.error",
     "endif", "call:sock.send", "if", "then", "raise:socket.error", "endif",
